@@ -375,6 +375,10 @@ def run(c, facts, tier):
         if a0["t"] == "ref":
             tgt = b.fn_ir(a0["fn"])
             body = unwrap(tgt["tail"]) if tgt["tail"] is not None and not tgt["steps"] else None
+            if body is not None and not tgt["unknown"] and not tgt["lets"] and ((body["t"] == "map" and unwrap(body["p"])["t"] == "tokset" and spec["not"]["tok"] not in unwrap(body["p"])["toks"]) or (body["t"] == "tokset" and body.get("vmap") is not None)):
+                # the primary alternative written as a named parser
+                kinds["primary"].append(body)
+                continue
             if body is not None and body["t"] == "map":
                 inner = unwrap(body["p"])
                 if inner["t"] == "seq" and len(inner["items"]) == 2 and unwrap(inner["items"][0]["p"])["t"] == "tokset" and unwrap(inner["items"][0]["p"])["toks"] == [spec["not"]["tok"]]:
